@@ -474,7 +474,7 @@ func oracleMatch(c matchCase, o matchObs) []core.Failure {
 	if !under(R, P) {
 		fs = append(fs, fail("matcher-result-outside-root", "request path %q tries %v matched %q outside root %q", c.path, c.tries, P, R))
 	}
-	if !c.fallback {
+	if c.policy == '0' && len(c.splits) == 0 {
 		n, _, err := o.fs.lookup(o.abs)
 		switch {
 		case err != nil:
@@ -497,8 +497,9 @@ func matchTags(c matchCase, o matchObs) []string {
 	if strings.Contains(c.path, "..") {
 		t = append(t, "matchfile:dotdot")
 	}
-	if c.fallback {
-		t = append(t, "matchfile:fallback-policy")
+	t = append(t, "matchfile:policy-"+string(c.policy))
+	if len(c.splits) > 0 {
+		t = append(t, "matchfile:split_path")
 	}
 	if o.matched && unintendedGlob(c, o) {
 		// which file inside the root a pattern selects is not part of C07 (containment and
